@@ -126,6 +126,24 @@ Proof. exact generated_oh_below_mark. Qed.
 Theorem C11_source_drains_the_channel_after_the_join : HANDOVER_DRAINS_AFTER_JOIN = true.
 Proof. reflexivity. Qed.
 
+(* the same through the session model's `go`: the engine's board after the `go` is the position after a mating move, and
+   that move's text is what is printed after `bestmove` (the hypotheses on the board are what a `position` command
+   establishes: pos_ok1 by C04_position_fen_command / C04_position_startpos_command, ordering value 0 below) *)
+Theorem C11_go_plays_the_mate : forall zt osort,
+  (forall i l, Permutation l (osort i l)) -> (forall i l, sorted_desc (osort i l) = true) ->
+  forall st cmds sc gt st' outs F ws m1 r1,
+  1 <= PLYMAX - NULL_PLY_OFFSET * Z.of_nat (sc_fuel sc) ->
+  parse_go_command cmds = Ok gt -> go_step zt osort st cmds sc = (st', outs) -> ss_phase st' = Running ->
+  pos_ok (ss_board st) AllMoves -> order_heuristic (ss_board st) < POS_INF -> dt_nonneg (ss_table st) ->
+  (forall y, In y (generate_moves zt (ss_board st) AllMoves) -> mated zt y -> is_threefold_repetition (ss_table st) y = false) ->
+  1 + Z.of_nat F <= 100 ->
+  Forall2 (fun m x => negamax zt F m (1 - 1) 1 (ss_table st) = Some x) (generate_moves zt (ss_board st) AllMoves) ws ->
+  In m1 (generate_moves zt (ss_board st) AllMoves) -> mated zt m1 ->
+  first_iteration zt osort (sc_k sc) (sc_fuel sc) (ss_board st) (ss_table st) = Ok (Some r1, r1) -> quiet (sc_k sc) (r_s r1) ->
+  mated zt (ss_board st') /\ exists t infos, best_move_text (ss_board st') = Ok t /\ outs = infos ++ [s_bestmove ++ t].
+Proof. exact go_plays_the_mate. Qed.
+Print Assumptions C11_go_plays_the_mate.
+
 (* the premises are satisfiable and the conclusion is what was false before F14: the witness position of that defect
    (k7/8/8/8/8/7P/5pPK/6BR b: f2f1n mates, f2f1q shares its squares), the engine's own hash table, insertion sort as
    the ordering, the deadline at clock reading 300: the first iteration ends at a reading <= 300, the search is cut
